@@ -373,7 +373,9 @@ func (p *c09) condViaClient(x *res, s c09Str, names map[string]string, values va
 			qv[k] = v
 		}
 		queryEmpty := cl.Do(adapt.Op{Kind: adapt.OpQuery, Table: spec.Name, KeyCnd: "h = :c09hq", Filter: s.s, Names: n2, Values: qv})
-		x.r.Evals += 4
+		// ... and the continuation of a paginated read whose start key names the LAST item: nothing is left to evaluate
+		scanAfterLast := cl.Do(adapt.Op{Kind: adapt.OpScan, Table: spec.Name, Filter: s.s, Names: n2, Values: v2, Start: val.Item{"h": val.Str("k")}})
+		x.r.Evals += 5
 		x.r.Counters["client_replays"]++
 		x.set("client-classes", put.Class)
 		wit := map[string]interface{}{"adapter": adapter, "expression": s.s, "derived_by": s.kind, "names": n2, "values": v2, "put": put, "scan": scan, "scan_empty_table": scanEmpty, "query_empty_partition": queryEmpty}
@@ -408,7 +410,7 @@ func (p *c09) condViaClient(x *res, s c09Str, names map[string]string, values va
 			for _, o := range []struct {
 				name string
 				out  adapt.Outcome
-			}{{"scan-of-empty-table", scanEmpty}, {"query-of-empty-partition", queryEmpty}} {
+			}{{"scan-of-empty-table", scanEmpty}, {"query-of-empty-partition", queryEmpty}, {"scan-after-the-last-item", scanAfterLast}} {
 				if o.out.Class != adapt.ClsOK {
 					x.viol("rejects-without-items-what-it-accepts-with-items", o.name, fmt.Sprintf("[%s] filter %q: Scan over a stored item succeeds, %s fails with %s (%s)", adapter, s.s, o.name, o.out.Class, o.out.Msg), wit)
 				}
@@ -417,7 +419,7 @@ func (p *c09) condViaClient(x *res, s c09Str, names map[string]string, values va
 		for _, o := range []struct {
 			name string
 			out  adapt.Outcome
-		}{{"put", put}, {"scan", scan}, {"scan-of-empty-table", scanEmpty}, {"query-of-empty-partition", queryEmpty}} {
+		}{{"put", put}, {"scan", scan}, {"scan-of-empty-table", scanEmpty}, {"query-of-empty-partition", queryEmpty}, {"scan-after-the-last-item", scanAfterLast}} {
 			if o.out.Class == adapt.ClsRuntime {
 				x.viol("client-runtime-panic", o.out.Site, fmt.Sprintf("[%s] %s with expression %q: runtime panic at %s: %s", adapter, o.name, s.s, o.out.Site, o.out.Msg), wit)
 			}
